@@ -408,7 +408,13 @@ def c05(prop, tier):
         ("seq", ["seq", "-seed", str(s), "-hists", "30" if q else "250", "-ops", "50" if q else "80"]),
         ("lru", ["lru", "-seed", str(s), "-hists", "40" if q else "600", "-ops", "80"]),
     ]
-    return index_family(prop, tier, plans)
+    # the fourth kind of use the property names: a dependency check that hits refreshes every referenced blob
+    # (ActionCache.tla's shapes without a backend; the engine compares the recency order after each hit)
+    out = os.path.join(scratch(), "acN-c05-cases.json")
+    r = run_tlc("ActionCache.tla", "ActionCache_N.cfg", env={"VERIF_CASES_OUT": out}, workers=8, timeout=1800)
+    if not r.ok or not os.path.exists(out):
+        raise Machinery(f"ActionCache.tla/ActionCache_N.cfg did not pass or wrote no table: {r.invariant or r.error}")
+    return index_family(prop, tier, plans, extra=[("acdeps (recency after a dependency check that hits)", ["acdeps", "-cases", out, "-tier", tier, "-seed", str(s)])])
 
 
 @check("C07")
